@@ -106,6 +106,48 @@ def _work_solve(item):
     return out
 
 
+def _work_options(seed):
+    """sizes and options handed over as arrays / lists / tuples (per-repetition sizes of an ellipsis axis, the shift of roll):
+    their contents, dtype and flags are the caller's and stay as they are"""
+    import random
+    import einx
+    rng = random.Random(seed)
+    out = []
+    m = rng.randint(1, 3)
+    inner = [rng.choice([1, 2, 3]) for _ in range(m)]
+    outer = [rng.choice([1, 2]) for _ in range(m)]
+    x = np.arange(int(np.prod([i * o for i, o in zip(inner, outer)]))).reshape([i * o for i, o in zip(inner, outer)])
+    holder = rng.choice(["int64", "int32", "list", "tuple", "readonly"])
+    if holder == "list":
+        sizes = list(inner)
+    elif holder == "tuple":
+        sizes = tuple(inner)
+    else:
+        sizes = np.array(inner, dtype=np.int32 if holder == "int32" else np.int64)
+        if holder == "readonly":
+            sizes.flags.writeable = False
+    calls = [("id", "(a b)... -> a... b...", [x], {"b": sizes}), ("sum", "(a [b])...", [x], {"b": sizes}), ("solve_axes", "(a b)...", [x], {"b": sizes}),
+             ("matches", "(a b)...", [x], {"b": sizes}), ("id", "(a b)... -> b... a...", [x], {"b": sizes, "graph": True})]
+    shift = np.array(rng.choice([1, 2]))
+    y = np.arange(6.0).reshape(2, 3)
+    calls.append(("roll", "a [b]", [y], {"shift": shift}))
+    for fn, desc, args, kw in calls:
+        snaps = {k: snapshot(v) for k, v in kw.items()}
+        asnap = [snapshot(a) for a in args]
+        try:
+            common.with_alarm(30, getattr(einx, fn), desc, *args, **kw)
+        except BaseException:  # noqa: BLE001
+            pass
+        for k, v in kw.items():
+            if snapshot(v) != snaps[k]:
+                out.append(({"kind": "option_object_modified", "fn": fn, "holder": type(v).__name__, "graph": bool(kw.get("graph"))},
+                            {"fn": fn, "desc": desc, "option": k, "before": str(snaps[k][1:])[:200], "after": str(snapshot(v)[1:])[:200]}))
+        for i, a in enumerate(args):
+            if snapshot(a) != asnap[i]:
+                out.append(({"kind": "argument_modified", "arg": i, "fn": fn}, {"fn": fn, "desc": desc}))
+    return out
+
+
 def run(ctx):
     import einx  # noqa: F401
     n = 250 if ctx.tier == "quick" else 6000
@@ -142,10 +184,14 @@ def run(ctx):
     for viol in sol:
         for tags, payload in viol:
             ctx.report(tags, payload)
+    opts = common.pmap(_work_options, [ctx.rng.randrange(1 << 30) for _ in range(40 if ctx.tier == "quick" else 1500)])
+    for viol in opts:
+        for tags, payload in viol:
+            ctx.report(tags, payload)
     for c, layout, _ in items[:5]:
         ctx.sample({"call": c.record(), "layout": layout})
     ctx.coverage.update({
-        "evaluations": len(items) * 6 + len(sol) * 3,
+        "evaluations": len(items) * 6 + len(sol) * 3 + len(opts) * 6,
         "rule": "generated calls x 4 memory layouts x 3 backends x (run, graph=True) + solve_shapes/solve_axes/matches; snapshot = bytes, "
                 "shape, dtype, strides, writeable and contiguity flags; distinct_nontrivial = distinct (op, description)",
         "input_distribution": {"family": fam, "layouts": LAYOUTS},
